@@ -134,10 +134,29 @@ func (f *File) readDataDesc() error {
 	return nil
 }
 
+// Remove ZIP64 extended information records from an extra field
+func stripZip64Extra(extra []byte) []byte {
+	var out []byte
+	for len(extra) >= 4 {
+		size := 4 + int(binary.LittleEndian.Uint16(extra[2:4]))
+		if size > len(extra) {
+			break
+		}
+		if binary.LittleEndian.Uint16(extra[:2]) != zip64ExtraID {
+			out = append(out, extra[:size]...)
+		}
+		extra = extra[size:]
+	}
+	return append(out, extra...)
+}
+
 func (f *File) GetDirectoryHeader() ([]byte, error) {
 	if len(f.raw) > 0 {
 		return f.raw, nil
 	}
+	// the entry is regenerated because the file moved or is new: a ZIP64 record
+	// from the original entry would carry the old offset next to the new one
+	f.Extra = stripZip64Extra(f.Extra)
 	hdr := zipCentralDir{
 		Signature:        directoryHeaderSignature,
 		CreatorVersion:   f.CreatorVersion,
